@@ -106,8 +106,6 @@ def main(argv: list[str] | None = None) -> int:
         n_replays = run_replay_tier(mod, pid, col)
         mod.run(ctx, col)
         floors_failed = check_floors(ctx, col)
-        if floors_failed:
-            raise HarnessError("generator floor(s) not met: " + "; ".join(floors_failed))
     except HarnessError as e:
         print(f"HARNESS-ERROR property={pid} {e}", flush=True)
         return 2
@@ -137,6 +135,12 @@ def main(argv: list[str] | None = None) -> int:
                 small = None
             if small is not None:
                 ent["cases"].insert(0, {"size": 0, "case": small, "detail": "shrunk by hypothesis"})
+
+    # a generator floor that is not met means "explored too little to say the property held" (exit 2) - but a violation that WAS seen is
+    # real whatever the distribution looked like (a broken tree can starve a class), so floors only matter when nothing new was found
+    if floors_failed and not new:
+        print(f"HARNESS-ERROR property={pid} generator floor(s) not met: " + "; ".join(floors_failed), flush=True)
+        return 2
 
     wall = time.time() - t0
     sigs_out = []
